@@ -10,6 +10,7 @@ from .gen_a import GenA, gen_selector, fmt_quantity, round_sig
 
 class GenB(GenA):
     def __init__(self, rng, run, profile):
+        self.followups = []
         super().__init__(rng, run.bench, profile)
         self.run = run
         self.undeclared = []      # prelude objects deliberately never declared
@@ -247,8 +248,12 @@ class GenB(GenA):
         rng = self.rng
         lc = self.run.lc
         kinds = ['dup_uses', 'dup_create', 'undeclared_transfer', 'undeclared_remove', 'undeclared_fill', 'undeclared_dilute',
-                 'nested_stage', 'dup_stage', 'wrong_end', 'end_none', 'end_all', 'dup_in_call', 'bad_args']
+                 'nested_stage', 'dup_stage', 'wrong_end', 'end_none', 'end_all', 'dup_in_call', 'bad_args', 'refused_create']
         k = rng.choice(kinds)
+        if k == 'refused_create':
+            c = self.refused_create()
+            if c is not None:
+                return c
         decl = list(lc.declared)
         und = [n for n in self.undeclared if n not in lc.declared]
         solvents = [n for n in self.subs_of() if not self.W.msubs[n].is_enzyme]
@@ -315,6 +320,61 @@ class GenB(GenA):
         if k == 'end_all' and lc.open_stage is None:
             return {'c': 'end_stage', 'name': 'all'}
         return None
+
+    def refused_create(self):
+        """A creation request under a new name that the library refuses for its values (a capacity of nothing, contents that do
+        not fit, no or one of the three solution constraints, a quantity of nothing), then - as a follow-up - the corrected
+        request under the same name.  The refused request must leave no trace: the name is still free, and the recipe bakes
+        as if it had never been made."""
+        rng = self.rng
+        if len(self.run.lc.declared) >= 9 or self.run.lc.locked:
+            return None
+        how = rng.choice(['container', 'solution', 'solution', 'solution_from'])
+        if how == 'container':
+            name = f"rc{rng.randrange(1000)}"
+            good = {'c': 'create_container', 'name': name, 'cap': '1 mL', 'contents': []}
+            bad = dict(good)
+            r = rng.random()
+            liquids = self.subs_of(M.LIQUID)
+            if r < 0.5 or not liquids:
+                bad['cap'] = rng.choice(['-1 mL', '0 mL', '1 parsec'])
+            else:
+                bad['contents'] = [[liquids[0], '5 mL']]
+        else:
+            good = None
+            for _ in range(6):
+                ev = self.gen_solution() if how == 'solution' else self.gen_solution_from()
+                c = self.to_call(ev) if ev is not None else None
+                if c is not None and not (c['c'] == 'create_solution' and isinstance(c['solvent'], dict)) \
+                        and self.run.try_eager(c)[0] == 'ok':
+                    good = c
+                    break
+            if good is None:
+                return None
+            import copy as _copy
+            bad = _copy.deepcopy(good)
+            if bad['c'] == 'create_solution':
+                kw = bad['kwargs']
+                keys = [x for x in ('concentration', 'quantity', 'total_quantity') if x in kw]
+                r = rng.random()
+                if r < 0.4 and len(keys) >= 2:
+                    del kw[rng.choice(keys)]                 # one constraint only
+                elif r < 0.7 and 'total_quantity' in kw:
+                    kw['total_quantity'] = '0 mL'
+                elif 'quantity' in kw:
+                    kw['quantity'] = ['0 g'] * len(kw['quantity']) if isinstance(kw['quantity'], list) else '0 g'
+                elif keys:
+                    del kw[keys[0]]
+                else:
+                    return None
+            else:
+                bad['q'] = rng.choice(['0 mL', '-1 mL'])
+        bad['may_be_invalid'] = True
+        if self.run.try_eager(bad)[0] == 'ok':
+            return None             # the direct operation accepts it: not a refused request after all
+        self.followups.append(good)
+        self.run.stats['probe:refused_create_then_corrected'] += 1
+        return bad
 
     def bad_args_call(self, name):
         """A step-adding call that names a declared object but is malformed for another reason: it must be rejected and
